@@ -83,7 +83,7 @@ func genBloomTasks(r *rand.Rand, p *ProbPlan, seed uint64, heavy, destructive bo
 
 func genBloom(seed uint64, tier, variant string) any {
 	r := planRand(seed, 0xC35)
-	p := &ProbPlan{Scenario: "bloom", Variant: variant, Clients: 1 + r.IntN(2), Multiplex: pick(r, 0, 0, 1), ReadOnly: r.IntN(3) == 0}
+	p := &ProbPlan{Scenario: "bloom", Variant: variant, Clients: 1 + r.IntN(2), ReadOnly: r.IntN(3) == 0}
 	var heavy bool
 	p.N, p.FP, heavy = probConfig(r, false)
 	p.Sim = SimSpec{CutProb: pick(r, 0.0, 0.3, 0.8), MaxSteps: 8000, TickWeight: pick(r, 0.05, 0.3)}
@@ -96,9 +96,7 @@ func genBloom(seed uint64, tier, variant string) any {
 	for i, n := 0, r.IntN(3); i < n; i++ {
 		p.Ghosts = append(p.Ghosts, ProbGhost{MinStep: r.IntN(150), Argv: []string{"SCRIPT", "FLUSH"}})
 	}
-	if variant != "nofault" {
-		probFaults(r, p)
-	}
+	probFaults(r, p)
 	return p
 }
 
